@@ -27,7 +27,7 @@ func (i *item) ScheduledTime() time.Time { return i.at }
 // Ev is one observed event (in the order of the global log; events raised under p.lock or the
 // clock mutex are exactly ordered among themselves).
 type Ev struct {
-	Kind  string `json:"k"` // enq deq adv peeked popped stale exec ret closecall closeret park unpark quiet
+	Kind  string `json:"k"` // enq deq adv newtimer peeked popped stale exec ret closecall closeret park unpark quiet
 	ID    int    `json:"id,omitempty"`
 	Key   int    `json:"key,omitempty"`
 	At    int64  `json:"at,omitempty"`  // scheduled time, ns from base
@@ -52,6 +52,8 @@ func (e Ev) Line() string {
 		return fmt.Sprintf("deq key=%d first=%d out=%s", e.Key, b(e.First), e.Out)
 	case "adv":
 		return fmt.Sprintf("adv to=%d", e.Now)
+	case "newtimer":
+		return fmt.Sprintf("newtimer dur=%d created=%d", e.At, e.Now)
 	case "peeked":
 		if e.None {
 			return "peeked none=1"
@@ -112,7 +114,6 @@ type World struct {
 	reenter *lib.Rand // callbacks of keys < 4 call Enqueue/Dequeue themselves (nil = never); guarded by yieldMu
 	yield   *lib.Rand // random perturbation at hooks (nil = none)
 	yieldMu sync.Mutex
-	useGate bool
 
 	hookHits map[string]int
 }
@@ -125,6 +126,9 @@ func NewWorld() *World {
 	w.lastLoopHook.Store("")
 	w.beforeLast.Store("")
 	w.clk.OnAdvance = func(now time.Time) { w.add(Ev{Kind: "adv", Now: ns(base, now)}) }
+	w.clk.OnNewTimer = func(d time.Duration, now time.Time) {
+		w.add(Ev{Kind: "newtimer", At: d.Nanoseconds(), Now: ns(base, now)})
+	}
 	w.p = queue.NewProcessor[int, *item](w.callback).WithClock(w.clk)
 	verifhook.Set(w.hook)
 	return w
@@ -201,7 +205,7 @@ func (w *World) maybePark(name string, args []any) {
 		return
 	}
 	switch name {
-	case "loop.reset", "loop.beforeArm", "loop.parked", "loop.fired", "loop.exit", "loop.sawEmpty", "cb":
+	case "loop.reset", "loop.beforeArm", "loop.beforeTimer", "loop.parked", "loop.fired", "loop.exit", "loop.sawEmpty", "cb":
 		// A lock-free step of the loop can see a reset/token that an Enqueue/Dequeue body has just sent
 		// before that body has logged its event (it does so at the end of its critical section). The
 		// loop holds no lock here, so the call returns promptly: wait for it, so that the park is
@@ -278,18 +282,12 @@ func (w *World) hook(name string, args ...any) {
 	case "queue.loop.reset":
 		w.resetPending.Store(false)
 		w.setLoopHook("reset")
-	case "queue.loop.beforeArm", "queue.loop.exit":
+	case "queue.loop.beforeArm", "queue.loop.beforeTimer", "queue.loop.exit":
 		w.setLoopHook(name[len("queue.loop."):])
 	case "queue.loop.fired":
 		w.setLoopHook("fired")
-		if w.useGate && !args[1].(bool) {
-			w.clk.gate.RUnlock()
-		}
 	case "queue.loop.parked":
 		w.setLoopHook("parked")
-		if w.useGate {
-			w.clk.gate.RUnlock()
-		}
 	case "queue.loop.released":
 		w.loopsReleased.Add(1)
 	case "queue.loop.sawEmpty":
@@ -300,9 +298,6 @@ func (w *World) hook(name string, args ...any) {
 		short = name[6:] // drop "queue."
 	}
 	w.maybePark(short, args)
-	if name == "queue.loop.beforeArm" && w.useGate {
-		w.clk.gate.RLock()
-	}
 	w.perturb()
 }
 
